@@ -153,10 +153,11 @@ fn serialize_cmap(
     retained_encoding_records: &[(usize, &EncodingRecord)],
     drop_format_4: bool,
 ) -> Result<(), SerializeErrorFlags> {
+    // taken before the header is allocated: the retry without format 4 allocates it again
+    let snap = s.snapshot();
     // allocate header: version + numTables
     s.allocate_size(HEADER_SIZE, false)?;
 
-    let snap = s.snapshot();
     let mut format12_objidx = None;
     //TODO: add support for cmap_cache in plan accelerator
     let mut unicodes_cache =
@@ -203,15 +204,18 @@ fn serialize_cmap(
             let cmap12_subset_unicodes =
                 IntSet::from_iter(plan.unicodes.iter().filter(|v| unicodes_set.contains(*v)));
 
-            if can_drop_format12(
-                record,
-                &cmap12_subset_unicodes,
-                cmap,
-                retained_encoding_records,
-                &mut unicodes_cache,
-                &plan.unicodes,
-                plan.font_num_glyphs,
-            ) {
+            // when the format 4 subtables are being dropped, format 12 is the only Unicode mapping left
+            if !drop_format_4
+                && can_drop_format12(
+                    record,
+                    &cmap12_subset_unicodes,
+                    cmap,
+                    retained_encoding_records,
+                    &mut unicodes_cache,
+                    &plan.unicodes,
+                    plan.font_num_glyphs,
+                )
+            {
                 continue;
             }
 
